@@ -459,6 +459,51 @@ def _rounding_spec(rng, nsub=None):
             "rounding": {"unit": unit, "ks": ks, "forms": forms}}
 
 
+def make_dtype_spec(rng, all_int=None):
+    """step channels on integer-valued (or, for float32, dyadic) time grids handed over as integer-dtype arrays (int64, int32,
+    np.arange), float32 arrays, Python lists / tuples - half of the specs with EVERY grid of integer dtype, so that the merged
+    grid is an integer array -, coefficients as float64 / float32 / integer arrays with values that are not integers (multiples
+    of 1/8) unless the container is an integer one"""
+    nsub = rng.randint(1, 2)
+    dims = [rng.choice([2, 3]) for _ in range(nsub)]
+    if all_int is None:
+        all_int = rng.random() < 0.5
+    chans = []
+    for _ in range(rng.randint(1, 3)):
+        tk = rng.choice(["i64", "i32", "arange", "ilist"] if all_int else T_KINDS)
+        n = rng.randint(2, 5)
+        if tk == "arange":
+            st = rng.randint(1, 3)
+            tl = [float(st * i) for i in range(n)]
+        elif tk == "f32" and rng.random() < 0.6:
+            tl = [0.0]
+            for _i in range(n - 1):
+                tl.append(tl[-1] + rng.randint(1, 12) / 8)
+        else:
+            tl = [0.0]
+            for _i in range(n - 1):
+                tl.append(tl[-1] + rng.randint(1, 3))
+        ck = rng.choice(C_KINDS)
+        if ck in ("i64", "i32"):
+            cs = [float(rng.choice([-3, -2, -1, 1, 2, 3])) for _ in range(n - 1)]
+        else:
+            cs = [rng.choice([-1, 1]) * rng.randint(1, 15) / 8 for _ in range(n - 1)]
+        if rng.random() < 0.25 and flags()["zl"]:
+            cs = cs + [cs[0]]                      # full length: the last element has no effect
+        chans.append({"targets": rng.sample(range(nsub), rng.randint(1, min(2, nsub))), "tlist": tl, "coeff": cs,
+                      "tkind": tk, "ckind": ck})
+    drift = {"targets": rng.sample(range(nsub), rng.randint(1, min(2, nsub)))} if rng.random() < 0.5 else None
+    return {"dims": dims, "seed": rng.randrange(2**31), "chans": chans, "drift": drift, "dm": rng.random() < 0.3}
+
+
+def dtype_tags(spec):
+    tks = sorted({c.get("tkind", "f64") for c in spec["chans"] if c.get("tlist") is not None})
+    cks = sorted({c.get("ckind", "f64") for c in spec["chans"] if not is_const(c)})
+    merged_int = all(k in ("i64", "i32", "arange", "ilist") for k in tks)
+    return ["containers", "merged grid dtype=" + ("integer" if merged_int else "float")] + \
+        ["tlist as " + k for k in tks] + ["coeff as " + k for k in cks]
+
+
 NEAR_SCALES = [1.0, 20.0, 1e3, 1e6]
 
 
@@ -586,12 +631,49 @@ def build_processor(spec, labels=None):
     return p, labels, drift_full, mats
 
 
+# containers / dtypes a time grid or a coefficient array may be handed over in (channel keys "tkind" / "ckind"; default f64).
+# The VALUES of the spec are the exact numbers in every case (integer kinds are only used for integer values, f32 for values
+# float32 represents exactly), so the stated Hamiltonian does not depend on the container.
+T_KINDS = ["f64", "i64", "i32", "f32", "arange", "list", "ilist", "tuple"]
+C_KINDS = ["f64", "f32", "i64", "i32"]      # a Python list as coefficient is refused by get_full_coeffs (documented ValueError)
+_NP_KIND = {"f64": np.float64, "f32": np.float32, "i64": np.int64, "i32": np.int32}
+
+
+def kind_ok(values, kind):
+    """can the container hold the values exactly?"""
+    vs = [float(v) for v in values]
+    if kind in ("i64", "i32", "ilist", "arange"):
+        return all(v.is_integer() for v in vs)
+    if kind == "f32":
+        return all(float(np.float32(v)) == v for v in vs)
+    return True
+
+
+def as_container(values, kind):
+    vs = [float(v) for v in values]
+    if not kind or kind == "f64" or not kind_ok(vs, kind):
+        return np.array(vs, dtype=float)
+    if kind == "list":
+        return list(vs)
+    if kind == "tuple":
+        return tuple(vs)
+    if kind == "ilist":
+        return [int(v) for v in vs]
+    if kind == "arange":
+        iv = [int(v) for v in vs]
+        steps = {b - a for a, b in zip(iv[:-1], iv[1:])}
+        if len(iv) >= 2 and len(steps) == 1:
+            return np.arange(iv[0], iv[-1] + 1, steps.pop())
+        return np.array(iv)                 # dtype inferred: the platform integer
+    return np.array(vs).astype(_NP_KIND[kind])
+
+
 def load_pulses(p, labels, spec):
     """set_coeffs builds Pulse(ham, targets, coeff=..., label=...) per channel (coeff an array, or True / False for a
-    constant channel), set_tlist gives every channel that has one its own tlist"""
+    constant channel), set_tlist gives every channel that has one its own tlist; containers as the channel says"""
     chans = list(zip(labels, spec["chans"]))
-    p.set_coeffs({lab: (bool(ch["coeff"]) if is_const(ch) else np.array(ch["coeff"], dtype=float)) for lab, ch in chans})
-    p.set_tlist({lab: np.array(ch["tlist"], dtype=float) for lab, ch in chans if ch.get("tlist") is not None})
+    p.set_coeffs({lab: (bool(ch["coeff"]) if is_const(ch) else as_container(ch["coeff"], ch.get("ckind"))) for lab, ch in chans})
+    p.set_tlist({lab: as_container(ch["tlist"], ch.get("tkind")) for lab, ch in chans if ch.get("tlist") is not None})
 
 
 def embed(M, targets, dims):
@@ -944,8 +1026,8 @@ def state_mats(state):
 def _pulse_of(state, ch):
     Pulse = _impl()[3]
     return Pulse(state_qobj(state["dims"], ch["targets"], ch["mseed"]), list(ch["targets"]),
-                 tlist=None if ch.get("tlist") is None else np.array(ch["tlist"], dtype=float),
-                 coeff=(bool(ch["coeff"]) if is_const(ch) else np.array(ch["coeff"], dtype=float)), label=ch["label"])
+                 tlist=None if ch.get("tlist") is None else as_container(ch["tlist"], ch.get("tkind")),
+                 coeff=(bool(ch["coeff"]) if is_const(ch) else as_container(ch["coeff"], ch.get("ckind"))), label=ch["label"])
 
 
 def build_state_processor(state, via=None):
@@ -1414,6 +1496,17 @@ NEAR_WITNESS_2 = {"kind": "evolution", "spec": {
     "dims": [2], "seed": 72, "drift": None, "dm": True,
     "chans": [{"targets": [0], "tlist": [0.0, 1.0 - 1.5e-10, 1.75, 2.5], "coeff": [0.9, -1.1, 0.6]},
               {"targets": [0], "tlist": [0.0, 1.0, 2.0], "coeff": [-0.7, 1.3]}]}}
+# every time grid an integer-dtype array (np.arange(0, 5, 2), np.array([0, 1, 3])): the merged grid is an int64 array; the
+# coefficients are not integers
+INT_GRID_WITNESS = {"kind": "evolution", "spec": {
+    "dims": [2], "seed": 81, "drift": {"targets": [0]}, "dm": False,
+    "chans": [{"targets": [0], "tlist": [0.0, 2.0, 4.0], "coeff": [0.75, -1.25], "tkind": "arange", "ckind": "f64"},
+              {"targets": [0], "tlist": [0.0, 1.0, 3.0], "coeff": [-0.5, 1.625], "tkind": "i64", "ckind": "f32"}]}}
+MIXED_GRID_WITNESS = {"kind": "evolution", "spec": {
+    "dims": [2, 2], "seed": 82, "drift": None, "dm": True,
+    "chans": [{"targets": [0], "tlist": [0.0, 1.0, 2.0, 5.0], "coeff": [2.0, -1.0, 3.0], "tkind": "ilist", "ckind": "i64"},
+              {"targets": [1], "tlist": [0.0, 0.375, 1.5], "coeff": [0.875, -0.125], "tkind": "f32", "ckind": "f32"},
+              {"targets": [1, 0], "tlist": [0.0, 3.0, 4.0], "coeff": [0.5, 0.25, 7.0], "tkind": "tuple", "ckind": "f64"}]}}
 CONST_WITNESS_2 = {"kind": "evolution", "spec": {
     "dims": [2], "seed": 10, "drift": {"targets": [0]}, "dm": True,
     "chans": [{"targets": [0], "tlist": [0.4, 0.9], "coeff": False},
@@ -1537,7 +1630,8 @@ class C14(PropertyCheck):
             "Processor object (any documented constructor form) evolved, edited through the public API (pulse.targets/.qobj/.coeff/"
             ".tlist, add_pulse, remove_pulse, add_drift) and evolved again, 2-4 steps; non-trivial = at least "
             "two channels with different grids; near stream: two distinct points of different channels 1.5e-10 ... 1e-8*t apart at "
-            "t ~ 1, 20, 1e3, 1e6; malformed inputs and save/reload are counted with their own tags")
+            "t ~ 1, 20, 1e3, 1e6; container stream: integer-dtype / float32 / list / tuple time grids and float32 / integer coefficient "
+            "arrays with exactly representable values; malformed inputs and save/reload are counted with their own tags")
 
     def regenerate(self, ctx):
         FLAGS.update(detect_flags())
@@ -1685,8 +1779,10 @@ class C14(PropertyCheck):
             res.case(inp, nontrivial=False, tags=["fill-direct", "tight-skipped"])
             return
         try:
-            out = _fill_coeff(np.array([float(x) for x in cs]), np.array([float(x) for x in g]),
-                              np.array([float(x) for x in full]), {"_step_func_coeff": True})
+            # integer-valued grids are handed over as integer-dtype arrays half of the time (the row must stay a float row)
+            ints = all(x.denominator == 1 for x in list(g) + list(full)) and rng.random() < 0.5
+            arr = (lambda l: np.array([int(x) for x in l], dtype=np.int64)) if ints else (lambda l: np.array([float(x) for x in l]))
+            out = _fill_coeff(np.array([float(x) for x in cs]), arr(g), arr(full), {"_step_func_coeff": True})
             impl = ("ok", out)
         except Exception as e:
             impl = ("err", classify_exc(e))
@@ -1987,6 +2083,11 @@ class C14(PropertyCheck):
         for spec in [dict(ROUNDING_WITNESS["spec"]), dict(ROUNDING_WITNESS_2["spec"])] + [make_rounding_spec(rng) for _ in range(28 * k)]:
             stream.append((spec, ["rounding"] + rounding_tags(spec)))
             nround += 1
+        # containers and dtypes: integer-dtype / float32 / list / tuple time grids, float32 / integer coefficient arrays
+        ndt = 0
+        for spec in [dict(INT_GRID_WITNESS["spec"]), dict(MIXED_GRID_WITNESS["spec"])] + [make_dtype_spec(rng, all_int=(i % 2 == 0)) for i in range(24 * k)]:
+            stream.append((spec, dtype_tags(spec)))
+            ndt += 1
         # distinct points of different channels closer than a tolerance that grows with t would allow
         nnear = 0
         for spec in [dict(NEAR_WITNESS["spec"]), dict(NEAR_WITNESS_2["spec"])] + [make_near_spec(rng, S=NEAR_SCALES[i % 4]) for i in range(24 * k)]:
@@ -2017,6 +2118,10 @@ class C14(PropertyCheck):
                          "run_state and save/reload (in varying order and subsets) against the expm product of the fields stated at "
                          "that moment, the model's merged grid / coefficients of the current channels, and a fresh processor built "
                          "from the current fields; processors constructed by every documented constructor form")
+        res.notes.append(f"container stream: {ndt} processors whose time grids are integer-dtype arrays (int64, int32, np.arange), float32 "
+                         "arrays, Python lists / tuples and whose coefficients are float64 / float32 / integer arrays (half of them with "
+                         "EVERY grid of integer dtype: the merged grid is an integer array), values exactly representable; compared "
+                         "with the model on the exact rationals and with the expm product")
         res.notes.append(f"numeric stream: {nnum} random processors (every fourth with a channel given as coeff=True/False), {nconst} "
                          f"with a constant channel of every shape (own tlist ending before / after / with the others, starting late, "
                          f"no tlist) x both values, {nround} with channel grids whose breakpoints and end points coincide as real "
@@ -2257,7 +2362,8 @@ class C14(PropertyCheck):
         f, d = self.oracle_replay(ctx, RUNSTATE_WITNESS)
         if f:
             yield RUNSTATE_WITNESS, d
-        for w in (ROUNDING_WITNESS, ROUNDING_WITNESS_2, CONST_WITNESS, CONST_WITNESS_2, RETARGET_WITNESS, NEAR_WITNESS, NEAR_WITNESS_2):
+        for w in (ROUNDING_WITNESS, ROUNDING_WITNESS_2, CONST_WITNESS, CONST_WITNESS_2, RETARGET_WITNESS, NEAR_WITNESS, NEAR_WITNESS_2,
+                  INT_GRID_WITNESS, MIXED_GRID_WITNESS):
             f, d = self.oracle_replay(ctx, w)
             if f:
                 yield w, d
@@ -2268,6 +2374,11 @@ class C14(PropertyCheck):
             # (fixes/C14-7, `cu`): the slot only loses its own slice (fill_catchup_near), members must pass
             tiny = [TINY_STEP_WITNESS] + [{"kind": "evolution", "spec": make_tiny_step_spec(rng)} for _ in range(3)]
         for w in tiny + history_family()[::3] + [make_history(rng) for _ in range(8)] + constructor_witnesses():
+            f, d = self.oracle_replay(ctx, w)
+            if f:
+                yield w, d
+        for i in range(8):
+            w = {"kind": "evolution", "spec": make_dtype_spec(rng, all_int=(i % 2 == 0))}
             f, d = self.oracle_replay(ctx, w)
             if f:
                 yield w, d
@@ -2311,7 +2422,15 @@ class C14(PropertyCheck):
                         if shape == "ends-last" and not flags()["hold"]:
                             continue
                     first.append({"kind": kind, "spec": add_const_channel(rng, base, shape=shape, value=val)})
-        first += [NEAR_WITNESS, NEAR_WITNESS_2]
+        first += [NEAR_WITNESS, NEAR_WITNESS_2, INT_GRID_WITNESS, MIXED_GRID_WITNESS]
+        for tk in T_KINDS:                        # every grid container x every coefficient container, same values
+            for ck in C_KINDS:
+                sp = {"dims": [2], "seed": 83, "drift": {"targets": [0]}, "dm": False,
+                      "chans": [{"targets": [0], "tlist": [0.0, 1.0, 3.0], "coeff": ([2.0, -1.0] if ck[0] == "i" else [1.5, -0.75]),
+                                 "tkind": tk, "ckind": ck},
+                                {"targets": [0], "tlist": [0.0, 2.0, 4.0], "coeff": ([-2.0, 3.0] if ck[0] == "i" else [-2.25, 0.625]),
+                                 "tkind": tk, "ckind": ck}]}
+                first.append({"kind": "evolution", "spec": sp})
         for S in NEAR_SCALES:                     # every scale x every gap (absolute and proportional to t)
             for dd in (1.5e-10, 5e-10, 1e-9, 3e-11 * S, 9e-11 * S, 1e-8 * S):
                 first.append({"kind": "evolution", "spec": make_near_spec(rng, S=S, d=dd)})
@@ -2323,7 +2442,7 @@ class C14(PropertyCheck):
         i = 0
         while time.time() - t0 < budget_s:
             i += 1
-            spec = (make_rounding_spec(rng) if i % 6 == 0 else make_near_spec(rng) if i % 6 == 3
+            spec = (make_rounding_spec(rng) if i % 6 == 0 else make_near_spec(rng) if i % 6 == 3 else make_dtype_spec(rng) if i % 6 == 5
                     else make_spec(rng, last_zero=not flags()["zl"], const=(i % 3 == 1)))
             w = {"kind": "evolution", "spec": spec}
             f, d = self.oracle_replay(ctx, w)
